@@ -81,7 +81,8 @@ CHECKS = {
   ref="DESIGN.md 9/C09"),
  "C01": dict(
   text="TLC enumerates the value probes of spec/MC_C01.tla under every context nesting and checks (R1) that each program is inside "
-       "the reference semantics of spec/MambaDynamic.tla (a big-step evaluator of the core language in TLA+); each program is "
+       "the reference semantics of spec/MambaDynamic.tla (a big-step evaluator of the core language in TLA+); the typed generator spec/MambaGen.tla adds well-typed compositions of the "
+       "constructs (invariant InsideSemantics); each program is "
        "rendered, transpiled with annotate off and on and executed by CPython; TLC (spec/RunJudge.tla) evaluates the reference "
        "semantics on the program and requires the same printed lines and the same ending (normal / class of the uncaught "
        "exception) in both modes.",
@@ -92,10 +93,10 @@ CHECKS = {
   ref="DESIGN.md 9/C01"),
  "C04": dict(
   text="Every program of the TLC-enumerated families (value probes of C01, the single-point-edit grids of C05-C09 and the "
-       "operand / receiver edit grid of spec/MC_C04.tla) that the real checker accepts is executed by CPython in both annotate "
+       "operand / receiver edit grid of spec/MC_C04.tla, the well-typed compositions of spec/MambaGen.tla) that the real checker accepts is executed by CPython in both annotate "
        "modes; TLC (spec/RunJudge.tla, clause C04) rejects any execution that ends in TypeError / AttributeError / NameError / "
        "UnboundLocalError. The reference semantics' own goes-wrong status is compared as drift.",
-  note="Trusted: lib/render.py, py/runpy.py; only CPython's verdict is decisive. Open known findings KF-C04-1..4.",
+  note="Trusted: lib/render.py, py/runpy.py; only CPython's verdict is decisive. Open known findings KF-C04-1..3.",
   tech="TLC-enumerated type-changing edit grids; accepted programs executed; TLC judges the recorded executions",
   ref="DESIGN.md 9/C04"),
  "C11": dict(
@@ -119,11 +120,12 @@ CHECKS = {
   ref="DESIGN.md 9/C03"),
  "C02": dict(
   text="Every module the pipeline emits - for the programs of the TLC-enumerated families, the token soup and adversarial shapes "
-       "of spec/PipelineInputs.tla, every repository sample, seeded token-level mutants of all of them and a literal-lexeme "
-       "grid, with annotate off and on - is handed to CPython's compile(); TLC (spec/CompileJudge.tla) accepts a record iff the "
+       "of spec/PipelineInputs.tla, the well-typed compositions of spec/MambaGen.tla, the typed expression trees of "
+       "spec/MC_PyExpr.tla, target-language words at every name position (spec/Rename.tla), every repository sample, seeded "
+       "token-level mutants and a literal-lexeme grid, with annotate off and on - is handed to CPython's compile(); TLC (spec/CompileJudge.tla) accepts a record iff the "
        "input was rejected with diagnostics or the emitted text compiled.",
-  note="'Accepted by the Python 3 compiler' = compile(text, name, 'exec') of CPython 3.11. Open known findings KF-C02-1..5 are "
-       "keyed by compiler message / shape of the emitted text.",
+  note="'Accepted by the Python 3 compiler' = compile(text, name, 'exec') of CPython 3.11. Open known findings KF-C02-6..9 (shapes that "
+       "only token-level mutants produce) are keyed by compiler message / shape of the emitted text.",
   tech="CPython compile() of every emitted module over TLC-enumerated inputs + mutants, judged by TLC",
   ref="DESIGN.md 9/C02"),
  "C12": dict(
@@ -198,7 +200,7 @@ CHECKS = {
        "annotate modes; py/pyapi.py applies pi to the Python AST of out(p); TLC (spec/EqualJudge.tla) requires the same verdict and "
        "pi(ast(out(p))) = ast(out(pi p)).",
   note="Names of the language's own vocabulary (keywords, built-in types and functions) and the documented specials (self, init as "
-       "constructor, operator names) are not targets. Open known finding KF-C15-1 (classes named Union / Generic).",
+       "constructor, operator names) are not targets. No open known finding.",
   tech="TLC-enumerated renamings applied to TLC-enumerated programs; commutation check on Python ASTs judged by TLC",
   ref="DESIGN.md 9/C15"),
 }
